@@ -61,6 +61,10 @@ func specCSSWhitespace(c byte) bool {
 func wfailed(w any) bool { return false }
 func werr(w any) error   { return nil }
 
+// wonly(w): the ghost state of every writer other than w is what it was when
+// the function was entered (frame condition of the abstract writer).
+func wonly(w any) bool { return true }
+
 // Escapers: never panic, terminate (C05); stop at the first failed write and
 // return the writer's error (C13).
 
@@ -70,9 +74,10 @@ func werr(w any) error   { return nil }
 //@   requires !wfailed(w)
 //@   ensures[C13] result != nil ==> wfailed(w) && result == werr(w)
 //@   ensures[C13] result == nil ==> !wfailed(w)
+//@   ensures[C13] wonly(w)
 //@   loop 0
 //@     invariant 0 <= last && last <= i && i <= len(s)
-//@     invariant !wfailed(w)
+//@     invariant !wfailed(w) && wonly(w)
 //@     decreases len(s) - i
 
 //@ func htmlNoEntitiesEscape
@@ -81,9 +86,10 @@ func werr(w any) error   { return nil }
 //@   requires !wfailed(w)
 //@   ensures[C13] result != nil ==> wfailed(w) && result == werr(w)
 //@   ensures[C13] result == nil ==> !wfailed(w)
+//@   ensures[C13] wonly(w)
 //@   loop 0
 //@     invariant 0 <= last && last <= i && i <= len(s)
-//@     invariant !wfailed(w)
+//@     invariant !wfailed(w) && wonly(w)
 //@     decreases len(s) - i
 
 //@ func attributeEscape
@@ -92,9 +98,10 @@ func werr(w any) error   { return nil }
 //@   requires !wfailed(w)
 //@   ensures[C13] result != nil ==> wfailed(w) && result == werr(w)
 //@   ensures[C13] result == nil ==> !wfailed(w)
+//@   ensures[C13] wonly(w)
 //@   loop 0
 //@     invariant 0 <= last && last <= i && i <= len(s)
-//@     invariant !wfailed(w)
+//@     invariant !wfailed(w) && wonly(w)
 //@     decreases len(s) - i
 
 //@ func cssStringEscape
@@ -103,9 +110,10 @@ func werr(w any) error   { return nil }
 //@   requires !wfailed(w)
 //@   ensures[C13] result != nil ==> wfailed(w) && result == werr(w)
 //@   ensures[C13] result == nil ==> !wfailed(w)
+//@   ensures[C13] wonly(w)
 //@   loop 0
 //@     invariant 0 <= last && last <= i && i <= len(s)
-//@     invariant !wfailed(w)
+//@     invariant !wfailed(w) && wonly(w)
 //@     decreases len(s) - i
 
 //@ func jsStringEscape
@@ -114,9 +122,10 @@ func werr(w any) error   { return nil }
 //@   requires !wfailed(w)
 //@   ensures[C13] result != nil ==> wfailed(w) && result == werr(w)
 //@   ensures[C13] result == nil ==> !wfailed(w)
+//@   ensures[C13] wonly(w)
 //@   loop 0
 //@     invariant 0 <= last && last <= i && i <= len(s)
-//@     invariant !wfailed(w)
+//@     invariant !wfailed(w) && wonly(w)
 
 //@ func jsonStringEscape
 //@   props C05 C13 C07
@@ -124,6 +133,7 @@ func werr(w any) error   { return nil }
 //@   requires !wfailed(w)
 //@   ensures[C13] result != nil ==> wfailed(w) && result == werr(w)
 //@   ensures[C13] result == nil ==> !wfailed(w)
+//@   ensures[C13] wonly(w)
 
 //@ func pathEscape
 //@   props C05 C13 C07
@@ -131,9 +141,10 @@ func werr(w any) error   { return nil }
 //@   requires !wfailed(w)
 //@   ensures[C13] result1 != nil ==> wfailed(w) && result1 == werr(w)
 //@   ensures[C13] result1 == nil ==> !wfailed(w)
+//@   ensures[C13] wonly(w)
 //@   loop 0
 //@     invariant 0 <= last && last <= i && i <= len(s)
-//@     invariant !wfailed(w)
+//@     invariant !wfailed(w) && wonly(w)
 //@     invariant buf == nil || len(buf) == 3
 //@     decreases len(s) - i
 
@@ -143,9 +154,10 @@ func werr(w any) error   { return nil }
 //@   requires !wfailed(w)
 //@   ensures[C13] result1 != nil ==> wfailed(w) && result1 == werr(w)
 //@   ensures[C13] result1 == nil ==> !wfailed(w)
+//@   ensures[C13] wonly(w)
 //@   loop 0
 //@     invariant 0 <= last && last <= i && i <= len(s)
-//@     invariant !wfailed(w)
+//@     invariant !wfailed(w) && wonly(w)
 //@     invariant buf == nil || len(buf) == 3
 //@     decreases len(s) - i
 
@@ -165,10 +177,144 @@ func werr(w any) error   { return nil }
 //@   requires !wfailed(w)
 //@   ensures[C13] result != nil ==> wfailed(w) && result == werr(w)
 //@   ensures[C13] result == nil ==> !wfailed(w)
+//@   ensures[C13] wonly(w)
 //@   loop 0
 //@     invariant 0 <= last && last <= i && i <= len(s)
-//@     invariant !wfailed(w)
+//@     invariant !wfailed(w) && wonly(w)
 //@     decreases len(s) - i
+
+// ---------------------------------------------------------------------------
+// renderer.go (C05: no panic; C13: writer discipline)
+// ---------------------------------------------------------------------------
+
+//@ func decodeRenderContext
+//@   props C05 C06
+
+//@ func (*renderer).endURL
+//@   props C05
+
+// Text: txt is an element of Function.Text, which the emitter never leaves empty
+// (requires, proved on the emitter side under C15).
+//@ func (*renderer).Text
+//@   props C05 C13
+//@   opt writerprop C13
+//@   requires len(txt) > 0
+//@   requires !wfailed(r.out)
+//@   ensures[C13] result != nil ==> wfailed(r.out) && result == werr(r.out)
+//@   ensures[C13] result == nil ==> !wfailed(r.out)
+
+// A strWriterWrapper forwards every write unchanged to the writer it wraps, so it
+// is the same abstract writer: wkey is the verifier's identity of a writer.
+// (Trusted: this is the modelling convention for the wrapper, justified by the
+// two one-line methods below it.)
+func wkey(w any) int { return 0 }
+
+//@ func newStringWriter
+//@   props C13
+//@   trusted
+//@   ensures wkey(result) == wkey(wr)
+//@   ensures result != nil
+
+//@ func toString
+//@   props C05 C09
+//@   requires env != nil
+
+//@ func valueOf
+//@   props C05
+//@   requires env != nil
+
+//@ func showInText
+//@   props C05 C13
+//@   opt writerprop C13
+//@   requires env != nil && !wfailed(out)
+//@   ensures[C13] wfailed(out) ==> result != nil && result == werr(out)
+//@   ensures[C13] wonly(out)
+
+//@ func showInHTML
+//@   props C05 C13
+//@   opt writerprop C13
+//@   requires env != nil && !wfailed(out)
+//@   ensures[C13] wfailed(out) ==> result != nil && result == werr(out)
+//@   ensures[C13] wonly(out)
+
+//@ func showInTag
+//@   props C05 C13
+//@   opt writerprop C13
+//@   requires env != nil && !wfailed(out)
+//@   ensures[C13] wfailed(out) ==> result != nil && result == werr(out)
+//@   ensures[C13] wonly(out)
+
+//@ func showInAttribute
+//@   props C05 C13
+//@   opt writerprop C13
+//@   requires env != nil && !wfailed(out)
+//@   ensures[C13] wfailed(out) ==> result != nil && result == werr(out)
+//@   ensures[C13] wonly(out)
+
+//@ func showInCSS
+//@   props C05 C13
+//@   opt writerprop C13
+//@   requires env != nil && !wfailed(out)
+//@   ensures[C13] wfailed(out) ==> result != nil && result == werr(out)
+//@   ensures[C13] wonly(out)
+
+//@ func showInCSSString
+//@   props C05 C13
+//@   opt writerprop C13
+//@   requires env != nil && !wfailed(out)
+//@   ensures[C13] wfailed(out) ==> result != nil && result == werr(out)
+//@   ensures[C13] wonly(out)
+
+//@ func showInJSString
+//@   props C05 C13
+//@   opt writerprop C13
+//@   requires env != nil && !wfailed(out)
+//@   ensures[C13] wfailed(out) ==> result != nil && result == werr(out)
+//@   ensures[C13] wonly(out)
+
+//@ func showInJSONString
+//@   props C05 C13
+//@   opt writerprop C13
+//@   requires env != nil && !wfailed(out)
+//@   ensures[C13] wfailed(out) ==> result != nil && result == werr(out)
+//@   ensures[C13] wonly(out)
+
+//@ func showInMarkdown
+//@   props C05 C13
+//@   opt writerprop C13
+//@   requires env != nil && !wfailed(out)
+//@   ensures[C13] wfailed(out) ==> result != nil && result == werr(out)
+//@   ensures[C13] wonly(out)
+
+//@ func showInMarkdownCodeBlock
+//@   props C05 C13
+//@   opt writerprop C13
+//@   requires env != nil && !wfailed(out)
+//@   ensures[C13] wfailed(out) ==> result != nil && result == werr(out)
+//@   ensures[C13] wonly(out)
+
+//@ func (*renderer).showInURL
+//@   props C05 C13
+//@   opt writerprop C13
+//@   opt stable renderer
+//@   requires env != nil && !wfailed(r.out)
+//@   ensures[C13] wfailed(r.out) ==> result != nil && result == werr(r.out)
+//@   ensures[C13] wonly(r.out)
+
+//@ func (*renderer).Show
+//@   props C05 C13 C06
+//@   opt writerprop C13
+//@   opt stable renderer
+//@   panics allowed
+//@   requires env != nil && !wfailed(r.out)
+//@   ensures[C13] wfailed(r.out) ==> result != nil && result == werr(r.out)
+
+//@ func parseTagValue
+//@   props C05
+
+//@ func showTimeInJS
+//@   props C05
+//@   panics allowed
 
 // markdownEscape: the errors "not closed HTML comment"/"not closed CDATA
 // section" are not writer errors, hence the weaker first postcondition.
@@ -177,9 +323,10 @@ func werr(w any) error   { return nil }
 //@   opt writerprop C13
 //@   requires !wfailed(w)
 //@   ensures[C13] wfailed(w) ==> result != nil && result == werr(w)
+//@   ensures[C13] wonly(w)
 //@   loop 0
 //@     invariant 0 <= last && last <= i && last <= len(s) && i <= len(s)+1
-//@     invariant !wfailed(w)
+//@     invariant !wfailed(w) && wonly(w)
 //@     decreases len(s) - i
 //@   loop 1
 //@     invariant 0 <= last && last <= i && i <= len(s) && entry(i) <= i
